@@ -18,6 +18,8 @@ WR.WRAP-TOKENS   the TextWrapper breaks only at blanks
 """
 import ast
 
+from sa.astutil import ordn
+
 from sa import AnalysisError
 from sa.astutil import unparse, parents, in_block, enclosing
 from sa.cfg import build_cfg, EXC
@@ -125,6 +127,34 @@ def rule_null_guard(ctx):
                 stores.append((node.id, a, t.slice))
     site = READ + "#null-mask"
     if not stores:
+        # the replacement may have moved out of the loop (into the engines, a helper that is not expanded): a NaN store through a
+        # mask somewhere in what read() calls -> not decided in that form; nowhere -> the replacement is gone
+        r_ = get_resolver(p)
+        elsewhere = []
+        for q, f in sorted(r_.closure([fr]).items()):
+            if isinstance(f.node, ast.Lambda):
+                continue
+            for a in walk_shallow(f.node):
+                if isinstance(a, ast.Assign) and len(a.targets) == 1 and isinstance(a.targets[0], ast.Subscript) \
+                        and isinstance(a.targets[0].slice, ast.Compare) and "nan" in ast.unparse(a.value).lower() and (f is not fr or not in_block(a, loop.body)):
+                    elsewhere.append((f, a))
+        nv = set(nullvars)
+        for a_ in walk_shallow(fr.node):
+            if isinstance(a_, ast.Assign) and len(a_.targets) == 1 and isinstance(a_.targets[0], ast.Name) and isinstance(a_.value, ast.Name) \
+                    and a_.value.id in nv:
+                nv.add(a_.targets[0].id)
+        nullvars = nv
+        handed = [c for c in walk_shallow(fr.node) if isinstance(c, ast.Call) and not (isinstance(c.func, ast.Attribute) and (
+            c.func.attr == "format" or ast.unparse(c.func.value).startswith(("logger", "logging")))) and any(
+            isinstance(x, ast.Name) and x.id in nullvars for a_ in list(c.args) + [k.value for k in c.keywords] for x in ast.walk(a_))]
+        if elsewhere and handed:
+            f, a = elsewhere[0]
+            ctx.undecided("NULL.GUARD", site, fr, loop, "the NULL->NaN store is `%s` in %s, outside the column assignment loop: its guard "
+                          "(policy flag, float column, not the index) is not decided across that structure" % (unparse(a), f.qual))
+            ctx.undecided("NULL.EXACT", site, fr, loop, "the NULL mask is built in %s" % f.qual)
+            ctx.floor("NULL.GUARD", 0)
+            ctx.floor("NULL.EXACT", 0)
+            return
         ctx.bad("NULL.GUARD", site, fr, loop, "no store of NaN through a NULL mask on the column in the assignment loop: "
                 "samples equal to the header NULL are never turned into NaN")
         ctx.floor("NULL.GUARD", 1)
@@ -409,7 +439,7 @@ def rule_counter(ctx):
     inits = [s for s in walk_shallow(fr.node) if isinstance(s, ast.Assign) and any(isinstance(t, ast.Name) and t.id == counter for t in s.targets)
              and not in_block(s, loop.body)]
     ok_init = [s for s in inits if isinstance(s.value, ast.Constant) and s.value.value == 0 and not isinstance(s.value.value, bool)
-               and (sect_loop is None or in_block(s, sect_loop.body)) and s.lineno < loop.lineno]
+               and (sect_loop is None or in_block(s, sect_loop.body)) and ordn(s) < ordn(loop)]
     if not ok_init and not enum:
         problems.append("the column counter is not reset to 0 for every data section before the columns are assigned")
     # uses: subscript into the curve list with the counter; bound check; append for surplus
@@ -458,8 +488,58 @@ def rule_counter(ctx):
                 and isinstance(s.targets[0].slice, ast.Name) and s.targets[0].slice.id == counter \
                 and isinstance(s.value, ast.Constant) and s.value.value is True:
             book = ast.unparse(s.targets[0].value)
+    undecided_book = None
     if book is None:
-        problems.append("assigned columns are not recorded by column index")
+        # second recognised form: the number of columns assigned is kept (`n = <counter> + 1` once per column, 0 before the loop)
+        # and the fill runs over range(n, <number of declared curves>)
+        fills = [s for s in walk_shallow(fr.node) if isinstance(s, ast.Assign) and any(isinstance(t, ast.Attribute) and t.attr == "data" for t in s.targets)
+                 and not in_block(s, loop.body) and "nan" in ast.unparse(s.value).lower() and (sect_loop is None or in_block(s, sect_loop.body))]
+        if not fills:
+            problems.append("declared curves without a column are no longer filled with NaN")
+        for s in fills:
+            fl = enclosing(s, (ast.For,))
+            rng = fl.iter if fl is not None and isinstance(fl.iter, ast.Call) and isinstance(fl.iter.func, ast.Name) and fl.iter.func.id == "range" \
+                and len(fl.iter.args) == 2 and isinstance(fl.target, ast.Name) else None
+            if rng is None or not isinstance(rng.args[0], ast.Name):
+                undecided_book = "the NaN fill of curves without a column is neither driven by a {index: assigned?} record nor by " \
+                                 "range(<columns assigned>, <curves declared>)"
+                continue
+            nvar = rng.args[0].id
+            nsets = [a for a in walk_shallow(fr.node) if isinstance(a, (ast.Assign, ast.AugAssign)) and any(
+                isinstance(t, ast.Name) and t.id == nvar for t in (a.targets if isinstance(a, ast.Assign) else [a.target]))]
+            inloop = [a for a in nsets if in_block(a, loop.body)]
+            before = [a for a in nsets if not in_block(a, loop.body)]
+            ok_in = bool(inloop) and all(a in loop.body and ((isinstance(a, ast.Assign) and ast.unparse(a.value) in ("%s + 1" % counter, "1 + %s" % counter))
+                                                             or (isinstance(a, ast.AugAssign) and isinstance(a.op, ast.Add) and ast.unparse(a.value) == "1"))
+                                         for a in inloop) and len(inloop) == 1
+            if nvar == counter and not enum:
+                ok_in = True      # the manual counter itself: after the loop it is the number of columns
+                before = [a for a in before if not (isinstance(a, ast.Assign) and isinstance(a.value, ast.Constant) and a.value.value == 0)] or before
+            ok_before = bool(before) and all(isinstance(a, ast.Assign) and isinstance(a.value, ast.Constant) and a.value.value == 0
+                                             and (sect_loop is None or in_block(a, sect_loop.body)) for a in before)
+            if not ok_in:
+                problems.append("`%s`, the lower bound of the NaN fill, is not the number of columns assigned (<column index> + 1 once "
+                                "per column)" % nvar)
+            if not ok_before:
+                problems.append("`%s`, the number of columns assigned, is not reset to 0 for every data section" % nvar)
+            ub = rng.args[1]
+            ubv = ub
+            if isinstance(ub, ast.Name):
+                ubd = [a.value for a in walk_shallow(fr.node) if isinstance(a, ast.Assign) and any(isinstance(t, ast.Name) and t.id == ub.id for t in a.targets)]
+                ubv = ubd[0] if len(ubd) == 1 else None
+            if not (ubv is not None and ast.unparse(ubv).startswith("len(") and ast.unparse(ubv).endswith("curves)")):
+                problems.append("the NaN fill does not run up to the number of declared curves (`%s`)" % unparse(ub))
+            t0 = s.targets[0]
+            if not (isinstance(t0.value, ast.Subscript) and isinstance(t0.value.slice, ast.Name) and t0.value.slice.id == fl.target.id
+                    and ast.unparse(t0.value.value).endswith("curves")):
+                problems.append("the NaN fill stores into `%s`, not curves[<index without a column>]" % unparse(t0))
+            lens = [n.id for n in ast.walk(s.value) if isinstance(n, ast.Name)]
+            lenvars = {t.id for a in ast.walk(loop) if isinstance(a, ast.Assign) and isinstance(a.value, ast.Call)
+                       and isinstance(a.value.func, ast.Name) and a.value.func.id == "len" and a.value.args
+                       and isinstance(a.value.args[0], ast.Name) and a.value.args[0].id == arr
+                       for t in a.targets if isinstance(t, ast.Name)}
+            if not (set(lens) & lenvars):
+                problems.append("the NaN fill length `%s` is not the length of the columns read" % unparse(s.value))
     else:
         binit = [s for s in walk_shallow(fr.node) if isinstance(s, ast.Assign) and any(ast.unparse(t) == book for t in s.targets)]
         if not binit or not all(sect_loop is None or in_block(s, sect_loop.body) for s in binit):
@@ -503,7 +583,9 @@ def rule_counter(ctx):
                        for t in a.targets if isinstance(t, ast.Name)}
             if not (set(lens) & lenvars):
                 problems.append("the NaN fill length `%s` is not the length of the columns read" % unparse(s.value))
-    if problems:
+    if undecided_book and not problems:
+        ctx.undecided("DATA.COUNTER", site, fr, loop, undecided_book)
+    elif problems:
         for m in dict.fromkeys(problems):
             ctx.bad("DATA.COUNTER", site, fr, loop, m)
     else:
@@ -1353,7 +1435,7 @@ def rule_options_readonly(ctx):
         for x in body_nodes:
             if isinstance(x, ast.Name) and isinstance(x.ctx, ast.Load) and x.id in params and x.id not in own:
                 captured.add(x.id)
-                first_def[x.id] = min(first_def.get(x.id, 10 ** 9), nf.node.lineno)
+                first_def[x.id] = min(first_def.get(x.id, 10 ** 9), ordn(nf.node))
     n = 0
     for nm in sorted(captured):
         n += 1
@@ -1369,7 +1451,7 @@ def rule_options_readonly(ctx):
                     if isinstance(x, ast.Name) and x.id == nm and isinstance(x.ctx, ast.Store):
                         in_loop = isinstance(sub, ast.For) or enclosing(sub, (ast.For, ast.While)) is not None
                         # deriving a default before the helpers exist is fine; what matters is a re-binding the helpers can observe
-                        if in_loop and sub.lineno > first_def.get(nm, 10 ** 9):
+                        if in_loop and ordn(sub) > first_def.get(nm, 10 ** 9):
                             rebinds.append(sub)
         ctx.check(not rebinds, "WR.OPTIONS-READONLY", "writer.write#option(%s)" % nm, fw, rebinds[0] if rebinds else fw.node,
                   "option `%s` (read by nested helpers) is not re-bound inside a loop" % nm,
@@ -1497,19 +1579,168 @@ def rule_subs_source(ctx):
         return
     problems = []
     for tn in tests:
-        for x in ast.walk(tn.ast):
-            if isinstance(x, ast.Name) and x.id in recnames:
-                for dn in rd.reaching(x.id, tn.id):
-                    nd = cfg.nodes[dn]
-                    a = nd.ast
-                    ok = nd.kind == "stmt" and isinstance(a, ast.Assign) and isinstance(a.value, ast.Call) and any(
-                        t.qual == SNIFF for t in r.callees(fr, a.value)[0]) and any(
-                        isinstance(t_, ast.Tuple) and len(t_.elts) == 2 and isinstance(t_.elts[1], ast.Name) and t_.elts[1].id == x.id
-                        for t_ in a.targets)
-                    if not ok:
-                        problems.append("`%s` can hold `%s` when the recommendation is examined: for such files the sniffer is not asked, "
-                                        "so the hyphen substitutions stay in force and e.g. dates are split into extra columns"
-                                        % (x.id, nd.text(60) if hasattr(nd, "text") else "?"))
+        for c in ast.walk(tn.ast):
+            if not (isinstance(c, ast.Compare) and isinstance(c.ops[0], (ast.NotEq, ast.Eq))):
+                continue
+            per_operand = []
+            for x in ast.walk(c):
+                if isinstance(x, ast.Name) and x.id in recnames:
+                    bad = []
+                    for dn in rd.reaching(x.id, tn.id):
+                        nd = cfg.nodes[dn]
+                        a = nd.ast
+                        ok = nd.kind == "stmt" and isinstance(a, ast.Assign) and isinstance(a.value, ast.Call) and any(
+                            t.qual == SNIFF for t in r.callees(fr, a.value)[0]) and any(
+                            isinstance(t_, ast.Tuple) and len(t_.elts) == 2 and isinstance(t_.elts[1], ast.Name) and t_.elts[1].id == x.id
+                            for t_ in a.targets)
+                        if not ok:
+                            bad.append("`%s` can hold `%s` when the recommendation is examined: for such files the sniffer is not asked, "
+                                       "so the hyphen substitutions stay in force and e.g. dates are split into extra columns"
+                                       % (x.id, nd.text(60) if hasattr(nd, "text") else "?"))
+                    per_operand.append(bad)
+            # one side of the comparison is the recommendation (always the sniffer's result); the other is the list in force
+            if per_operand and not any(not b for b in per_operand):
+                problems += min(per_operand, key=len)
     ctx.check(not problems, "DATA.SUBS-SOURCE", site, fr, tests[0].ast, "the recommendation examined is always the sniffer's result",
               "; ".join(dict.fromkeys(problems)))
     ctx.floor("DATA.SUBS-SOURCE", 1)
+
+
+def rule_subs_agree(ctx):
+    """DATA.SUBS-AGREE: the reference engine splits the lines with the substitution list the sniffer last counted the columns
+    with (a count taken with the hyphen substitutions removed and a read with them in force - or the other way round - disagree
+    on run-on values such as `101.50-102.50`, and the reshape silently displaces cells).  Explicit-state search over value
+    numbers: a plain copy keeps the number, the sniffer's second result is rec(<number of its argument>) with rec(rec(v)) =
+    rec(v) (the recommendation of a recommended list is that list), any other assignment makes a new number."""
+    p = ctx.p
+    r = get_resolver(p)
+    fr = host_data(p)
+    cfg = build_cfg(p, fr)
+
+    def subs_arg(call, fi):
+        params = [x for x in fi.params() if x != "self"]
+        nm = next((x for x in params if "regexp" in x or x == "subs"), None)
+        if nm is None:
+            return None
+        i = params.index(nm)
+        return next((k.value for k in call.keywords if k.arg == nm), call.args[i] if len(call.args) > i and not any(
+            isinstance(a, ast.Starred) for a in call.args[:i + 1]) else None)
+    sniffs, engines = {}, {}
+    for node in cfg.nodes:
+        if node.ast is None or node.kind not in ("stmt", "test"):
+            continue
+        for c in walk_expr_shallow(node.ast):
+            if isinstance(c, ast.Call):
+                for t in r.callees(fr, c)[0]:
+                    if t.qual == SNIFF:
+                        sniffs[node.id] = (c, subs_arg(c, t))
+                    elif t.qual == NORMAL:
+                        engines[node.id] = (c, subs_arg(c, t))
+    site0 = READ + "#subs-sniffed-vs-read"
+    if not sniffs or not engines:
+        ctx.undecided("DATA.SUBS-AGREE", site0, fr, fr.node, "no call of the sniffer / reference engine in %s" % fr.qual)
+        return
+    if not all(isinstance(a, ast.Name) for _, a in list(sniffs.values()) + list(engines.values())):
+        ctx.undecided("DATA.SUBS-AGREE", site0, fr, fr.node, "a substitution argument of the sniffer / reference engine is not a plain name")
+        return
+    # names connected to the arguments through plain copies
+    tracked = {a.id for _, a in list(sniffs.values()) + list(engines.values())}
+    copies = [(st.targets[0].id, st.value.id) for st in walk_shallow(fr.node) if isinstance(st, ast.Assign) and len(st.targets) == 1
+              and isinstance(st.targets[0], ast.Name) and isinstance(st.value, ast.Name)]
+    for st in walk_shallow(fr.node):
+        if isinstance(st, ast.Assign) and isinstance(st.value, ast.Call) and any(t.qual == SNIFF for t in r.callees(fr, st.value)[0]):
+            for t_ in st.targets:
+                if isinstance(t_, ast.Tuple) and len(t_.elts) == 2 and isinstance(t_.elts[1], ast.Name):
+                    tracked.add(t_.elts[1].id)
+    changed = True
+    while changed:
+        changed = False
+        for x, y in copies:
+            if (x in tracked) != (y in tracked):
+                tracked |= {x, y}
+                changed = True
+
+    def rec(v):
+        return v if v[0] == "rec" else ("rec", v)
+
+    def transfer(node, consts, facts, lab):
+        f = dict(facts)
+
+        def val(nm):
+            return f.get(nm, ("init", nm))
+        a = node.ast
+        if node.id in sniffs:
+            f["$sniffed"] = val(sniffs[node.id][1].id)
+        if is_exc(lab):
+            return frozenset(f.items())
+        if node.kind == "stmt" and isinstance(a, ast.Assign):
+            if node.id in sniffs and isinstance(a.value, ast.Call):
+                for t_ in a.targets:
+                    if isinstance(t_, ast.Tuple) and len(t_.elts) == 2 and isinstance(t_.elts[1], ast.Name):
+                        f[t_.elts[1].id] = rec(f["$sniffed"])
+                    for nm in target_names(t_):
+                        if nm in tracked and not (isinstance(t_, ast.Tuple) and len(t_.elts) == 2 and t_.elts[1] is not None
+                                                   and isinstance(t_.elts[1], ast.Name) and t_.elts[1].id == nm):
+                            f[nm] = ("def", node.id)
+            else:
+                for t_ in a.targets:
+                    for nm in target_names(t_):
+                        if nm not in tracked:
+                            continue
+                        if isinstance(t_, ast.Name) and isinstance(a.value, ast.Name):
+                            f[nm] = val(a.value.id)
+                        else:
+                            f[nm] = ("def", node.id)
+        else:
+            for nm in node_defs(node):
+                if nm in tracked:
+                    f[nm] = ("def", node.id)
+        return frozenset(f.items())
+    from sa.cfg import is_exc_label as is_exc
+    # plain worklist over (node, value numbers): constants of other variables do not matter here
+    from collections import deque
+    st0 = (cfg.entry, frozenset())
+    prev = {st0: None}
+    seen = {}
+    dq = deque([st0])
+    while dq:
+        st = dq.popleft()
+        nid, facts = st
+        seen.setdefault(nid, set()).add((None, facts))
+        for t, lab in cfg.succ[nid]:
+            nst = (t, transfer(cfg.nodes[nid], None, facts, lab))
+            if nst not in prev:
+                prev[nst] = st
+                dq.append(nst)
+    for k, nid in enumerate(sorted(engines)):
+        ecall, earg = engines[nid]
+        site = "%s@%d" % (site0, k + 1)
+        bad = None
+        n_states = 0
+        for (cf, facts) in seen.get(nid, ()):
+            f = dict(facts)
+            if "$sniffed" not in f:
+                continue
+            n_states += 1
+            if f.get(earg.id, ("init", earg.id)) != f["$sniffed"]:
+                bad = (nid, cf, facts)
+                break
+        if nid not in seen or (not n_states and bad is None):
+            ctx.ok("DATA.SUBS-AGREE", site, fr, ecall, "engine call not reached after a column count", nontrivial=False)
+            continue
+        pth = None
+        if bad:
+            full = []
+            cur = (bad[0], bad[2])
+            while cur is not None:
+                full.append(cur[0])
+                cur = prev[cur]
+            full.reverse()
+            pth = cfg.describe_path([x for x in full if x in sniffs or x == nid or (cfg.nodes[x].kind == "stmt" and any(
+                nm in tracked for nm in node_defs(cfg.nodes[x])))][-8:])
+        ctx.check(bad is None, "DATA.SUBS-AGREE", site, fr, ecall,
+                  "on every path the reference engine reads with the substitution list of the last column count (%d states at the call)" % n_states,
+                  "the list `%s` handed to the reference engine is not the one inspect_data_section last counted the columns with: the "
+                  "column count and the tokens read disagree for run-on values, cells are displaced without an error when the totals "
+                  "happen to divide" % earg.id, pth)
+    ctx.floor("DATA.SUBS-AGREE", 1)
